@@ -48,7 +48,8 @@ FUNCTIONS = {
             ('select_c03', 'listing.Listing.report'), ('runner_order', 'runner.order_by_bases'),
             ('runner_order', 'runner.Runner.ordered_layers'), RUN_TESTS, RUNNER_LOOP,
             ('runner_spawn', 'runner.spawn_layer_in_subprocess'), ('features_c18', 'runner.Runner.run')],
-    'C06': [('runner_sched', 'runner.resume_tests'), ('runner_spawn', 'runner.spawn_layer_in_subprocess')],
+    'C06': [('runner_sched', 'runner.resume_tests'), ('runner_spawn', 'runner.spawn_layer_in_subprocess'),
+            ('process_c07', 'process.SubProcess.report')],      # sentence 1 composes the lossless transfer (C07)
     'C14': [('find_c14', f) for f in ('find.strip_py_ext', 'find.contains_init_py', 'find.find_test_files_',
                                       'find.find_test_files', 'find.find_suites', 'find.test_dirs',
                                       'options.get_options@prefix')],
